@@ -17,3 +17,24 @@ package proxy
 //@ func (*requestContext).Finalize$1
 //@   props C12
 //@   ensures (*errHolder).err != nil && Is((*errHolder).err, heimdall.ErrCommunication)
+
+// C15: what the reverse proxy's Rewrite hook does to the outgoing request.
+//  - the URL is the upstream URL computed by the rule (Backend.CreateURL), nothing else;
+//  - X-Forwarded-Method/-Uri/-Path sent by the client are removed;
+//  - every header the pipeline produced is *set* on the outgoing request - one Header.Set per key of
+//    the upstream header map, for that key, with the pipeline's value (so a same-named client header
+//    is replaced, whatever its value); ghost log mapnext = iterations of the range over the map;
+//  - X-Forwarded-For is extended by the peer address (or Forwarded, if no X-Forwarded-* came in).
+//@ spec peerIP(hostport string) string
+//@ func (*requestContext).rewriteRequest$1
+//@   props C15
+//@   loop 0 invariant hset.n - old(hset.n) == mapnext.n - old(mapnext.n) && hdel.n == old(hdel.n) + 3
+//@   ensures hdel.n >= old(hdel.n) + 3 && hdel.arg1[old(hdel.n)] == "X-Forwarded-Method" && hdel.arg1[old(hdel.n) + 1] == "X-Forwarded-Uri" && hdel.arg1[old(hdel.n) + 2] == "X-Forwarded-Path"
+//@   assert at call Del#1: callarg0 == proxyReq.Out.Header && proxyReq.Out.URL == *targetURL
+//@   assert at call Del#2: callarg0 == proxyReq.Out.Header
+//@   assert at call Del#3: callarg0 == proxyReq.Out.Header
+//@   assert at call Set#1: callarg0 == proxyReq.Out.Header
+//@   assert at call Set#1: mapnext.n > old(mapnext.n) && iface(callarg1) == mapnext.arg0[mapnext.n - 1]
+//@   assert at call Set#1: callarg2 == headerGet((*r).RequestContext.upstreamHeaders, callarg1, hver)
+//@   assert at call Set#2: callarg0 == proxyReq.Out.Header && callarg1 == "X-Forwarded-For" && hasSuffix(callarg2, peerIP((*r).req.RemoteAddr))
+//@   assert at call Set#5: callarg0 == proxyReq.Out.Header && callarg1 == "Forwarded"
